@@ -157,7 +157,7 @@ def abi_corr(which):
         else:
             sel = cases      # decode cases, plus round trip on what the implementation encoded
         # shard
-        shards = max(1, min(ctx.NPROC, len(sel) // 150))
+        shards = max(1, -(-len(sel) // 250))       # at most 250 cases per file: a coqc evaluating thousands of payload terms needs many GB
         wd = os.path.join(ctx.BUILD, 'cases', cid)
         os.makedirs(wd, exist_ok=True)
         for f in os.listdir(wd):
@@ -252,7 +252,7 @@ def trace_corr(mode, module, ntraces, relevant, rule, nontrivial, corpus_dir=Non
         traces += [json.loads(l) for l in lines]
         if hasattr(mod, 'prepare'):
             traces = [mod.prepare(t) for t in traces]
-        shards = max(1, min(ctx.NPROC, len(traces)))
+        shards = max(1, min(ctx.NPROC, len(traces)), -(-len(traces) // 60))   # at most 60 traces per file (memory)
         wd = os.path.join(ctx.BUILD, 'cases', cid)
         os.makedirs(wd, exist_ok=True)
         for f in os.listdir(wd):
